@@ -222,6 +222,8 @@ def run(chk, ctx) -> None:
         chk.ob('C09.effects_before_cascade', f'State.{op}', not bad, of.loc,
                'every effect of an operation is applied before it hands over to the update step: the automated steps that run there '
                'see the same state a manual user would see after the call returns', got=sorted(set(bad)))
+    from .cover import handover_last
+    handover_last(chk, ctx, 'C09.effects_before_cascade')
     chk.floor('C09.effects_before_cascade', 17)
     # ------------------------------------------------- operations never consult
     for op in disc:
